@@ -188,6 +188,51 @@ def strip_dropped(forest: str):
     return f, dropped
 
 
+LOOKALIKE_NAMES = ["important", "fromage", "define", "default_v", "whiles", "iffy", "format_v", "elsewhere", "trying", "breaker", "passing", "returned", "globally",
+                   "target_level", "sleeper", "printed", "ranger", "classy", "within", "nots", "android", "truely", "led_count", "lcd_rows", "servo_pos", "monitor"]
+LOOKALIKE_FUNCS = ["set_target", "retarget", "my_sleep", "printer", "do_import", "led_on", "get_range", "is_pressed_now", "writer"]
+
+
+def lookalikes(ctx):
+    """every statement is accounted for even when an identifier merely LOOKS like a directive, keyword or device word:
+    variables and helper functions with such names must behave as under CPython"""
+    import cxx
+    import pyoracle
+    rng = ctx.rng
+    head = "from Reduino.Communication import SerialMonitor\nfrom Reduino.Utils import sleep\nmon = SerialMonitor(9600)\n"
+    srcs = []
+    names = LOOKALIKE_NAMES[:]
+    rng.shuffle(names)
+    for i in range(0, len(names), 4):
+        part = names[i:i + 4]
+        body = "".join(f"{n} = {j + 2}\n" for j, n in enumerate(part))
+        body += "while True:\n" + "".join(f"    {n} = {n} + 1\n    mon.write({n})\n" for n in part)
+        srcs.append(head + body)
+    for fn in LOOKALIKE_FUNCS:
+        srcs.append(head + f"def {fn}(v):\n    mon.write(v + 1)\nlevel = 4\n{fn}(0)\nwhile True:\n    if level > 2:\n        {fn}(level)\n    else:\n        {fn}(200)\n    level = level - 1\n")
+        srcs.append(head + f"def {fn}(v):\n    return v * 2\nmon.write({fn}(3))\nwhile True:\n    mon.write({fn}(5))\n")
+    outs = [cxx.transpile(s) for s in srcs]
+    jobs = [(cpp, 3, "") for cpp, e in outs if cpp is not None]
+    it = iter(cxx.run_many(ctx, jobs))
+    for src, (cpp, exc) in zip(srcs, outs):
+        ctx.case(src, nontrivial=True)
+        if cpp is None:
+            ctx.count("lookalike:rejected")
+            continue
+        res = next(it)
+        if res.compile_error or not res.ok:
+            ctx.fail("account:lookalike-does-not-compile", f"{(res.compile_error or res.stderr)[:300]}", {"script": src})
+            continue
+        ev, err = pyoracle.run_script(src, 3)
+        if err is not None:
+            continue
+        ctx.cov["traces_validated_against_impl"] += 1
+        a = [e[1] for e in ev if e[0] == "w"]
+        b = [e[1] for e in pyoracle.fw_events(res.trace) if e[0] == "w"]
+        if a != b:
+            ctx.fail("account:lookalike-identifier", f"a statement with an identifier that merely looks like a directive/keyword is not carried out: firmware {b} vs Python {a}", {"script": src})
+
+
 def run(ctx: Ctx) -> int:
     ctx.prove(["Reduino.Props.C07"])
     common.fresh_import()
@@ -294,6 +339,7 @@ def run(ctx: Ctx) -> int:
         bad = [e for e in P._VERIF_SKIP_LOG if not BENIGN.match(e[3].strip())]
         if bad and not rejected:
             ctx.fail(key, f"{name}: line {bad[0][3].strip()!r} disappears from the firmware without a diagnostic", {"script": head + body})
+    lookalikes(ctx)
     ctx.cov["rule"] = ("random strings over quotes/escapes/#/blanks for the character-level functions; random block-structured scripts (if/elif/else, while, for, main loop, "
                        "depth <= 2) whose every line carries a tag, rendered under random layouts: indent unit 1-8 or tabs, blank lines, comment lines (same column in-domain, "
                        "any column otherwise), trailing comments (on headers only out-of-domain), trailing whitespace, spaces inside calls")
